@@ -176,6 +176,8 @@ def check_typed_vec(ctx, rule, prog, label, recv_ty_re, limit_path, limit_doc):
            "%s evaluates to %s, documented bound %d" % (limit_path, limit_val, limit_doc))
     rx = re.compile(recv_ty_re)
     n = 0
+    guarded = []   # (fn, bb) of limit-guarded pushes
+    forks = []     # functions building a child Vm from a clone of the stack
     for fn in prog.fns.values():
         if fn.crate not in ("essential_vm", "essential_check"):
             continue
@@ -202,6 +204,8 @@ def check_typed_vec(ctx, rule, prog, label, recv_ty_re, limit_path, limit_doc):
                                 l = M.peel(x.terms[1], casts=True)
                                 if l.kind == "call" and re.search(r"Vec::len$", l.a) and l.sub and M.render(M.peel(l.sub[0])) == recv:
                                     ok = True
+                        if ok:
+                            guarded.append((fn, bb))
                         ctx.ob(rule, key, ok, fn.loc(bb),
                                "%s on the parent-memory stack `%s`; needs Lt(len(it), %s); dominating: %s" % (what, recv, limit_path, [x.text for x in atoms]), fn)
                     else:
@@ -229,6 +233,25 @@ def check_typed_vec(ctx, rule, prog, label, recv_ty_re, limit_path, limit_doc):
                     ok, why = True, "field of Vm::default()"
                 elif src.kind == "call" and re.search(r"Clone>::clone$|Clone::clone$", src.a):
                     ok, why = True, "clone of a parent-memory stack (every such stack is bounded by the guarded push)"
+                    inner = M.peel(src.sub[0]) if src.sub else None
+                    base = M.peel(inner.sub[0]) if inner is not None and inner.sub else None
+                    if not (inner is not None and inner.kind == "field" and inner.a == "parent_memory" and not (base is not None and base.kind == "param" and base.a == "<env>")):
+                        # (a clone of a whole Vm copies its stack at the same depth and is not a nesting step)
+                        forks.append((fn, bb))
                 n += 1
                 ctx.ob(rule, "%s:%s:Vm-aggregate" % (label, fn.path), ok, fn.loc(bb), "Vm.parent_memory built from %s" % why, fn)
+    # the depth measure must grow on every nesting: a child Vm that receives a clone of the stack is
+    # created only after the guarded push (otherwise the length no longer counts the nesting depth)
+    for fn, bb in forks:
+        site_fn, site_bb = fn, bb
+        if fn.kind == "Closure" and fn.parent and prog.fn(fn.parent) is not None:
+            par = prog.fn(fn.parent)
+            for b2, blk in enumerate(par.blocks):
+                for st in blk["stmts"]:
+                    if st["k"] == "assign" and st["rv"].get("k") == "aggr" and st["rv"].get("agg") == "closure" and M.strip_generics(st["rv"].get("closure", "")) == fn.path:
+                        site_fn, site_bb = par, b2
+        ok = any(g is site_fn and site_fn.cfg().dominates(gb, site_bb) and gb != site_bb for g, gb in guarded)
+        n += 1
+        ctx.ob(rule, "%s:%s:child-created-only-after-the-guarded-push" % (label, fn.path), ok, site_fn.loc(site_bb),
+               "the child Vm cloning the stack is built in %s bb%d; guarded pushes: %s" % (site_fn.path, site_bb, [(g.path, gb) for g, gb in guarded]), site_fn)
     return n
